@@ -208,7 +208,9 @@ class Proj:
             for a, b in r.vacations:
                 L.append("%svacation %s%s" % (i2, fmt_date(a), " - " + fmt_date(b) if b else ""))
             for a, sec in r.bookings:
-                L.append('%sbooking "b" %s +%s' % (i2, fmt_date(a), fmt_dur(sec)))
+                # calendar durations: weeks and days are written as such when they are whole
+                dur = "%dw" % (sec // 604800) if sec % 604800 == 0 else ("%dd" % (sec // 86400) if sec % 86400 == 0 else fmt_dur(sec))
+                L.append('%sbooking "b" %s +%s' % (i2, fmt_date(a), dur))
             if r.limits:
                 L.append("%slimits { %s }" % (i2, " ".join(
                     "%s %s" % ("dailymax" if k == "d" else "weeklymax", fmt_limit(v)) for k, v in r.limits)))
@@ -325,9 +327,12 @@ class Proj:
                                   "res": rix[id(rn)] if rn else 0, "periods": 0} for k, v, rn in t.limits]})
         R = []
         for r in res:
-            hours = r.hours
-            if r.shift:
-                hours = self.shifts[r.shift]
+            # own hours / shift, else those of the nearest enclosing group that declares some, else the project default
+            x = r
+            hours = None
+            while x is not None and hours is None:
+                hours = self.shifts[x.shift] if x.shift else x.hours
+                x = x.parent
             if hours is not None:
                 H = [[[a, b] for a, b in hours.get(d, [])] for d in range(7)]
                 cal = "hours"
@@ -530,23 +535,40 @@ def calendars(rng, n, zones=None):
                 shift = p.add_shift("s%d" % k, rng.choice([std_hours(540, 1080), {d: [(1320, 360)] for d in range(5)},
                                                            {d: [(0, 480), (960, 1440)] for d in range(7)}]))
             tz = rng.choice(zones) if (hours is not None or shift) and rng.random() < 0.6 else None
+            parent = None
+            if rng.random() < 0.25:
+                # a group that declares hours (inline or through a shift); its people inherit them unless they declare their own
+                gh = rng.choice([std_hours(720, 1200), std_hours(360, 840, range(6)), {d: [(1320, 360)] for d in range(5)}])
+                if rng.random() < 0.5:
+                    parent = p.add_res("g%d" % k, shift=p.add_shift("gs%d" % k, gh))
+                else:
+                    parent = p.add_res("g%d" % k, hours=gh)
+                if style == "default" or rng.random() < 0.3:
+                    hours, shift = None, None           # inherits the group's hours
             leaves = []
             bookings = []
             if rng.random() < 0.35:
                 d0 = start.replace(hour=0, minute=0) + timedelta(days=rng.randint(1, 8))
                 leaves.append((d0, d0 + timedelta(days=rng.randint(1, 3)) if rng.random() < 0.7 else None))
-            if rng.random() < 0.15:
+            if rng.random() < 0.2:
                 b0 = start.replace(hour=0, minute=0) + timedelta(days=rng.randint(1, 5), hours=rng.choice([9, 12, 23]))
-                bookings.append((b0, rng.choice([2, 4, 6]) * 3600))
-            rs.append(p.add_res("r%d" % k, hours=hours, shift=shift, tz=tz, leaves=leaves, bookings=bookings))
+                bookings.append((b0, rng.choice([2, 4, 6, 24, 48, 168]) * 3600))
+            rs.append(p.add_res("r%d" % k, parent=parent, hours=hours, shift=shift, tz=tz, leaves=leaves, bookings=bookings))
         ts = []
         endpin = start + timedelta(days=14)
         for k in range(rng.randint(1, 4)):
             r = rng.choice(rs)
             effort = G * rng.randint(2, 30)
-            deps = [(rng.choice(ts), False, 0)] if ts and rng.random() < 0.5 else []
+            half = G // 2 if (G // 2) % 60 == 0 else 300
+            if rng.random() < 0.3:
+                effort += half              # ends inside a slot: the successor's bound is a mid-slot instant
+            deps = [(rng.choice(ts), False, rng.choice([0, 0, half]))] if ts and rng.random() < 0.5 else []
             t = p.add_task("t%d" % k, effort=effort, alloc=[r], deps=deps)
             ts.append(t)
+        if rng.random() < 0.15 and not alap:
+            # a milestone the user put inside a slot, followed by work
+            ms = p.add_task("ms", milestone=True, start=start.replace(hour=0, minute=0) + timedelta(days=rng.randint(1, 8), hours=rng.choice([10, 11, 14]), seconds=G // 2 if (G // 2) % 60 == 0 else 300))
+            p.add_task("after", effort=G * rng.randint(1, 6), alloc=[rng.choice(rs)], deps=[(ms, False, 0)])
         if alap:
             # deadlines only on sinks
             sinks = [t for t in ts if not any(d[0] is t for u in ts for d in u.deps)]
